@@ -166,6 +166,24 @@ fn persist_graph<K: Kmer + Send + Sync + serde::Serialize + serde::de::Deseriali
             }
         }
     }
+    // the same graph assembled from two / three shards (`BaseGraph::combine`), finished, written and read back
+    let items: Vec<&str> = if a[3] == "-" { vec![] } else { a[3].split(',').collect() };
+    if items.len() >= 2 {
+        for parts in [2usize, 3] {
+            let chunk = (items.len() + parts - 1) / parts;
+            let shards: Vec<BaseGraph<K, u32>> = items.chunks(chunk).map(|c| {
+                let mut b: BaseGraph<K, u32> = BaseGraph::new(a[2] == "1");
+                for t in c { let f: Vec<&str> = t.split(':').collect();
+                    b.add(digits(f[0]), Exts::new(u8::from_str_radix(f[1], 16).unwrap()), if f[2] == "_" { 0 } else { f[2].parse().unwrap() }); }
+                b }).collect();
+            let gc = BaseGraph::combine(shards.into_iter()).finish();
+            if show_graph(&gc.base) != show_graph(&g.base) || all_edges(&gc) != all_edges(&g) { return "combined-graph-differs".into(); }
+            let sc = serde_json::to_string(&gc).unwrap();
+            let gc2: DebruijnGraph<K, u32> = serde_json::from_str(&sc).unwrap();
+            if show_graph(&gc2.base) != show_graph(&g.base) { return "combined-graph-nodes-differ-after-round-trip".into(); }
+            if all_edges(&gc2) != all_edges(&g) { return "combined-graph-edges-differ-after-round-trip".into(); }
+        }
+    }
     // the text of the base graph (the finished graph adds the two perfect-hash indexes, whose layout belongs to boomphf)
     format!("roundtrip=ok|json={}", esc(&bs))
 }
